@@ -228,7 +228,7 @@ def load_known_findings(prop_id: str) -> List[dict]:
 
 
 def _write_replay(prop_id: str, sub: str, bucket: str, rec: dict, tier: str, seed: int) -> str:
-    d = os.path.join(VERIF_DIR, 'replays', prop_id)
+    d = os.path.join(os.environ.get('VERIF_REPLAY_DIR') or os.path.join(VERIF_DIR, 'replays'), prop_id)
     os.makedirs(d, exist_ok=True)
     h = case_hash([sub, bucket, rec['case']])[:10]
     path = os.path.join(d, 'fail-%s-%s.json' % (sub, h))
@@ -399,8 +399,9 @@ def run_property(mod, tier: str, seed: int, only_subs: Optional[List[str]] = Non
         'wall_s': round(wall, 2),
         'violations': len(violations),
     }
-    os.makedirs(os.path.join(VERIF_DIR, 'evidence'), exist_ok=True)
-    ev_path = os.path.join(VERIF_DIR, 'evidence', '%s.json' % prop_id)
+    ev_dir = os.environ.get('VERIF_EVIDENCE_DIR') or os.path.join(VERIF_DIR, 'evidence')
+    os.makedirs(ev_dir, exist_ok=True)
+    ev_path = os.path.join(ev_dir, '%s.json' % prop_id)
     with open(ev_path, 'w') as f:
         json.dump(evidence, f, indent=1, default=str, sort_keys=False)
         f.write('\n')
